@@ -282,6 +282,62 @@ def pddl_text_tags(*texts):
 
 TAG_PRIORITY = ["empty-precondition", "nested-div", "nested-minus", "dup-effects", "dup-operands"]
 
+# words that the UP PDDL reader parses as trajectory-constraint operators wherever they head a list (io/up_pddl_reader.py,
+# _parse_exp); the writer only mangles them when the problem has trajectory constraints (io/pddl_writer.py, __init__)
+PDDL3_WORDS = {"always", "sometime", "sometime-before", "sometime-after", "at-most-once"}
+
+
+def pddl_c38_keyword_names(problem, writer, domain_text, problem_text):
+    """Names chosen by the PDDL writer that property C38's lexical oracle (vk.ref.names: PDDL 3.1 BNF words of the language
+    fragments the two files use) classifies as reserved words, e.g. a predicate written as `assign` (missing from the writer's
+    keyword table). That is C38's subject and reported there; a text with such a name is ambiguous PDDL, C18 does not judge it."""
+    from vk.ref import names as N
+
+    reserved = N.pddl_reserved(domain_text, problem_text)
+    bad = []
+
+    def look(item, ns):
+        try:
+            n = writer.get_pddl_name(item)
+        except UPException:
+            return
+        if N.pddl_keyword_violation(n, ns, reserved):
+            bad.append(n)
+
+    for t in problem.user_types:
+        look(t, "type")
+    for it in list(problem.fluents) + list(problem.actions) + list(problem.all_objects):
+        look(it, "symbol")
+    for a in problem.actions:
+        for prm in a.parameters:
+            look(prm, "variable")
+    return sorted(bad)
+
+
+def inexact_binary(value_text):
+    """True iff the text is a rational whose denominator is a large power of two: the footprint of a decimal literal that went
+    through a binary float (0.4 -> 3602879701896397/9007199254740992)."""
+    from fractions import Fraction
+
+    try:
+        d = Fraction(value_text).denominator
+    except (ValueError, ZeroDivisionError):
+        return False
+    return d >= 2**30 and d & (d - 1) == 0
+
+
+def pddl3_word_names(problem, writer):
+    """Names (as written) of fluents / actions / objects that are PDDL3 modal-operator words."""
+    out = []
+    for it in list(problem.fluents) + list(problem.actions) + list(problem.all_objects):
+        try:
+            n = writer.get_pddl_name(it)
+        except UPException:
+            continue
+        if n.lower() in PDDL3_WORDS:
+            out.append(n)
+    return sorted(out)
+
 
 def primary_tag(tags):
     """One tag per text (bounded set of mechanism strings): the first present in TAG_PRIORITY."""
@@ -318,16 +374,38 @@ def call_with_timeout(seconds, fn, *a, **kw):
 
 
 # ---- ANML: features of the written problem that key known writer/reader limitations ----------------------------------------------
-ANML_TAG_PRIORITY = [
-    "invalid-identifier",
-    "negative-bound",
-    "fractional-real-bound",
-    "half-bounded-real",
-    "quantified-effect-condition",
-    "negated-compound-effect-condition",
-    "iff-compound-operand",
-    "quantifier-first-operand",
-]
+# one mechanism tag per root cause (sub-tags stay visible as counters):
+#   iff-compound-operand    ANMLWriter prints Iff as `==`, the grammar's relations level only takes arithmetic operands
+#   type-bound-syntax       numeric type bounds the writer prints (`-2`, `7/2`, `(-infinity, 4.0]` for reals) but the grammar's
+#                           primitive_type does not accept           [sub-tags negative-bound, fractional-real-bound, half-bounded-real]
+#   keyword-as-fluent-ref   the grammar's fluent_ref takes forall / exists / not for a fluent name and commits (`-`), so a
+#                           quantifier followed by an operator inside a parenthesis, `when (forall ...)`, `when (not (a and b))`
+#                           abort the parse     [sub-tags quantifier-first-operand, quantified-effect-condition,
+#                           negated-compound-effect-condition]
+ANML_ROOT_CAUSE = {
+    "iff-compound-operand": "iff-compound-operand",
+    "negative-bound": "type-bound-syntax",
+    "fractional-real-bound": "type-bound-syntax",
+    "half-bounded-real": "type-bound-syntax",
+    "quantified-effect-condition": "keyword-as-fluent-ref",
+    "negated-compound-effect-condition": "keyword-as-fluent-ref",
+    "quantifier-first-operand": "keyword-as-fluent-ref",
+}
+ANML_TAG_PRIORITY = ["iff-compound-operand", "type-bound-syntax", "keyword-as-fluent-ref"]
+
+
+def anml_invalid_identifiers(names):
+    """Identifiers chosen by the ANML writer that are not ANML identifiers (letter|_)(letter|digit|_)* or are ANML keywords:
+    property C38's subject (io/anml_writer.py `_is_valid_anml_name` is not anchored). C19 does not judge such problems."""
+    from vk.ref import names as N
+
+    bad = []
+    for item, n in names.items():
+        if hasattr(item, "is_user_type") and not item.is_user_type():
+            continue  # int / real / bool types: the "name" is the type expression
+        if not N.anml_valid_name(n) or N.anml_is_keyword(n):
+            bad.append(n)
+    return sorted(bad)
 
 
 def anml_problem_tags(problem, names):
@@ -335,11 +413,6 @@ def anml_problem_tags(problem, names):
     from unified_planning.model.operators import OperatorKind as OK
 
     tags = set()
-    ident = re.compile(r"[A-Za-z_][A-Za-z0-9_]*\Z")
-    for item, n in names.items():
-        if hasattr(item, "name") and not (hasattr(item, "is_user_type") and not item.is_user_type()):
-            if not ident.match(n):
-                tags.add("invalid-identifier")
     tps = [f.type for f in problem.fluents] + [p.type for f in problem.fluents for p in f.signature]
     for t in tps:
         if t.is_int_type() or t.is_real_type():
@@ -385,7 +458,9 @@ def anml_problem_tags(problem, names):
 
 
 def anml_primary_tag(tags):
+    """Root-cause tag naming the mechanism (first of ANML_TAG_PRIORITY among the root causes of the sub-tags)."""
+    roots = {ANML_ROOT_CAUSE.get(t, t) for t in tags}
     for t in ANML_TAG_PRIORITY:
-        if t in tags:
+        if t in roots:
             return t
     return None
